@@ -633,6 +633,7 @@ func (vfs *MemFS) OpenFile(name string, flag int, perm fs.FileMode) (avfs.File, 
 
 		if om&avfs.OpenTruncate != 0 {
 			c.truncate(0)
+			c.removePrivs(vfs.User())
 		}
 
 	case *dirNode:
@@ -922,6 +923,10 @@ func (vfs *MemFS) Rename(oldpath, newpath string) error {
 		return &os.LinkError{Op: op, Old: oldpath, New: newpath, Err: vfs.err.PermDenied}
 	}
 
+	if !oParent.checkSticky(oChild, vfs.User()) {
+		return &os.LinkError{Op: op, Old: oldpath, New: newpath, Err: vfs.err.OpNotPermitted}
+	}
+
 	if nParent != oParent {
 		nParent.mu.Lock()
 		defer nParent.mu.Unlock()
@@ -931,14 +936,14 @@ func (vfs *MemFS) Rename(oldpath, newpath string) error {
 		}
 	}
 
+	if nChild != nil && !nParent.checkSticky(nChild, vfs.User()) {
+		return &os.LinkError{Op: op, Old: oldpath, New: newpath, Err: vfs.err.OpNotPermitted}
+	}
+
 	_, oIsDir := oChild.(*dirNode)
 
 	if oPI.Path() == nPI.Path() && (!oIsDir || vfs.OSType() == avfs.OsWindows) {
 		return nil
-	}
-
-	if !oParent.checkSticky(oChild, vfs.User()) || nChild != nil && !nParent.checkSticky(nChild, vfs.User()) {
-		return &os.LinkError{Op: op, Old: oldpath, New: newpath, Err: vfs.err.OpNotPermitted}
 	}
 
 	if oIsDir && nParent != oParent && !oChild.checkPermission(avfs.OpenWrite, vfs.User()) {
@@ -1158,6 +1163,7 @@ func (vfs *MemFS) Truncate(name string, size int64) error {
 	}
 
 	c.truncate(size)
+	c.removePrivs(vfs.User())
 
 	return nil
 }
